@@ -66,6 +66,22 @@ CHECKS = {
         design_ref="5/C07", technique="Coq proof (lexicographic order on uniform-depth trees is a strict total order, by induction "
                                       "on depth and lists; shape-regular trees are determined by their flat sequence) + "
                                       "extracted-model vs library differential on operator tables"),
+    "C14": dict(
+        text="Theorems C14_{potrf,geqrf,gesvd,syev}_marshalling (Coq, all sizes/strides/offsets, both orientations and fillings): "
+             "for every accepted view the Fortran call the adaptor builds is legal, LAPACK sees the view's matrix or its transpose "
+             "according to which stride is 1, the triangle flag designates the selected triangle, nothing outside the view's "
+             "footprint is designated, the returned view is the leading block by info (C14_potrf_leading_block), what passes "
+             "geqrf's own assertions designates only elements of the view (C14_geqrf_checks_suffice). C14_workspace: query call then "
+             "real call with the same arguments, workspace allocated and returned once on every path. The *_factorization theorems: "
+             "given LAPACK's column-major contracts (premises) the factors reconstruct the input in the view's own reading, values "
+             "in LAPACK's order, only documented outputs change. Tie: interposed dpotrf_/dgeqrf_/dgesvd_/dsyev_ (every argument, "
+             "workspace event, returned view) against the extracted model; residuals, ordering, guard cells and the unselected "
+             "triangle checked on the library's own output.",
+        design_ref="5/C14", technique="Coq proof (index arithmetic of the marshalling; LAPACK contracts as premises) + extracted-"
+                                      "model vs library differential with symbol interposition + numeric oracle",
+        note="floating-point accuracy is measured (residual <= 200 n eps |A|), not proved; LAPACK contracts are premises; getrf "
+             "not claimed (does not compile, as the property says); Coq 8.16.1 kernel, Print Assumptions recorded in the evidence; "
+             "extraction ExtrOcamlBasic only; g++ 12, OpenBLAS/LAPACK as installed"),
 }
 
 NOT_YET = {
